@@ -12,7 +12,7 @@ from collections import deque
 
 PROPERTY = "C20"
 CLAIM = dict(
-    text="Explicit-state model checking of the real Node class and frame registries: every insertion order and orientation of every tree up to 7 (quick) / 8 (thorough) nodes, every insertion history of small general graphs (canonical-state BFS), and every repetition-free sequence of station / orbit-frame / body-frame registrations up to depth 3 / 4; in every intermediate state every ordered pair is checked against a BFS reference (termination, valid links, shortest length, ValueError for unconnected pairs) and existing conversions are compared bit-for-bit with the pristine world. Exhaustive within the bounds, so it covers the quantifier of the property (all orders) rather than one order as the tests do.",
+    text="Explicit-state model checking of the real Node class and frame registries: every insertion order and orientation of every tree up to 6 (quick) / 8 (thorough) nodes and of every ring up to 7 / 8 nodes, every insertion history of small general graphs (canonical-state BFS), and every repetition-free sequence of station / orbit-frame / body-frame registrations up to depth 3 / 4; in every intermediate state every ordered pair is checked against a BFS reference (termination, valid links, shortest length, ValueError for unconnected pairs), existing conversions are compared bit-for-bit with the pristine world, and every registered frame's origin and (local orbital frames) axes are compared with the object it was attached to. Exhaustive within the bounds, so it covers the quantifier of the property (all orders) rather than one order as the tests do.",
     note="Trusts: renaming invariance of Node (cross-checked on all labelled trees n<=5/6), the BFS reference, and world snapshot/restore of the registries. Beyond 8 nodes / the stated edge bounds nothing is claimed.",
     technique="explicit-state search over link-insertion histories on the real implementation, BFS reference model",
 )
@@ -24,8 +24,8 @@ RULE = (
     "non-trivial = state with at least 3 linked nodes (a route of >=2 hops exists); distinct by history"
 )
 BOUNDS = {
-    "quick": "trees n<=6 (classes) + all labelled trees n<=5; graphs: 4 nodes all edges, 5 nodes <=6 edges, 6 nodes <=6 edges; registry histories: all of length<=3 over the 8 core operations, all of length<=2 over the 17 operations, and every length-3 history placing a dependent operation (frame on the Moon frame, nested frame, re-registration) with its prerequisite (incl. two re-registrations of a used name and a local orbital frame on a body-centred parent)",
-    "thorough": "trees n<=8 (classes) + all labelled trees n<=6; graphs: 5 nodes <=8 edges, 6 nodes <=7 edges; registry histories: length<=4 over the core operations, length<=3 over all 17",
+    "quick": "trees n<=6 (classes) + all labelled trees n<=5; rings n<=7 (all orders x orientations, first link fixed by the dihedral symmetry); graphs: 4 nodes all edges, 5 nodes <=6 edges, 6 nodes <=6 edges; registry histories: all of length<=3 over the 8 core operations, all of length<=2 over the 17 operations, and every length-3 history placing a dependent operation (frame on the Moon frame, nested frame, re-registration) with its prerequisite (incl. two re-registrations of a used name and a local orbital frame on a body-centred parent)",
+    "thorough": "trees n<=8 (classes) + all labelled trees n<=6; rings n<=8; graphs: 5 nodes <=8 edges, 6 nodes <=7 edges; registry histories: length<=4 over the core operations, length<=3 over all 17",
 }
 ASSUMPTIONS = [
     "Node behaviour is invariant under renaming of nodes (names are only compared for equality / used as dict keys); "
@@ -33,7 +33,7 @@ ASSUMPTIONS = [
     "reference = breadth-first search on the explicit undirected edge list",
     "registry part runs with the EOP policy 'pass' (zero corrections): routing does not depend on EOP values",
 ]
-NOT_COVERED = ("trees with more than 8 nodes, graphs beyond the stated edge bounds; after a name is registered again only the NEW "
+NOT_COVERED = ("trees and rings with more than 8 nodes, graphs beyond the stated edge bounds; after a name is registered again only the NEW "
                "definition is checked (objects still expressed in the superseded frame follow the new links by design of the name-keyed registries)")
 
 
